@@ -459,7 +459,7 @@ def search_full_methods(ctx, rng):
 
 def run(ctx):
     rng = np.random.default_rng(ctx.seed)
-    pr = vlib.coq_props('C05', extra_targets=['model/TransformPipeQ.vo'])
+    pr = vlib.coq_props('C05', extra_targets=['model/TransformPipeQ.vo'], translators=['symmetry_src', 'transform_src'])
     ctx.cov.update(obligations=len(pr['theorems']), discharged=pr['discharged'], theorems=pr['theorems'],
                    axioms=pr['axioms'],
                    checker_cmd='make -C /verif/coq props/C05.vo (coqc 8.16.1, full .vo build) + Print Assumptions',
